@@ -919,6 +919,8 @@ pub fn classify_deadlock(ctx: &Arc<Ctx>) -> Failure {
     // C09: a Busy try_sync must leave the object undisturbed; a hang on an object on which try_sync answered Busy implicates it
     let stuck_objs: Vec<usize> = status.values().map(|(_, _, o)| *o).chain(ctx.calls.iter().filter(|c| c.accepted.load(Ordering::SeqCst) && c.end.load(Ordering::SeqCst) == 0).map(|c| c.obj)).collect();
     if ctx.calls.iter().any(|c| c.kind == "trysync" && c.busy.load(Ordering::SeqCst) && stuck_objs.contains(&c.obj)) { add("C09"); }
+    // C13: a queue that was suspended and has been resumed must continue; a hang on such an object implicates it
+    if ctx.calls.iter().any(|c| c.kind == "suspend" && c.end.load(Ordering::SeqCst) != 0 && stuck_objs.contains(&c.obj)) { add("C13"); }
     if props.is_empty() { props.push("C03"); }
     Failure { props, what }
 }
